@@ -189,6 +189,8 @@ enum Judge {
     AdoptEditor,
     /// unspecified command: stop judging this script
     Stop,
+    /// the line may be rejected (notification, nothing changes) or executed with this effect
+    Either(Effect),
 }
 
 fn model_key(sh: &mut Shadow, k: &Key, rep: &mut Report) -> Result<Judge, V> {
@@ -236,6 +238,11 @@ fn model_key(sh: &mut Shadow, k: &Key, rep: &mut Report) -> Result<Judge, V> {
                     rep.inc("commands_must_reject");
                     rep.class_str(&format!("reject:{}", why));
                     Ok(Judge::Full)
+                }
+                Class::Either(e, why) => {
+                    rep.inc("commands_either");
+                    rep.class_str(&format!("either:{}", why));
+                    Ok(Judge::Either(e))
                 }
                 Class::Unspecified(why) => {
                     rep.inc("commands_unspecified");
@@ -466,7 +473,25 @@ fn run_batch(ctx: &Ctx, scripts: &[Script], tag: &str, rep: &mut Report) {
                 _ => 6,
             };
             rep.class(&[key_class, (w < 76 || h < 28) as u64, (w > 200) as u64, had_notif as u64, sh.auto as u64, (sh.m.step_mode() == StepMode::Assembly) as u64]);
+            let judge = match judge {
+                Judge::Either(e) => {
+                    if st.notif.is_some() {
+                        sh.notif = true;
+                    } else {
+                        verif::set_fuel(Some(2_000_000));
+                        let r = apply_effect(&mut sh, &e, rep);
+                        verif::set_fuel(None);
+                        if let Err((sig, what)) = r {
+                            rep.violate(&sig, what, witness(ki));
+                            break;
+                        }
+                    }
+                    Judge::Full
+                }
+                j => j,
+            };
             match judge {
+                Judge::Either(_) => {}
                 Judge::Stop => {
                     judging = false;
                     if st.quit {
@@ -632,8 +657,14 @@ fn random_script(rng: &mut Rng, id: String, fix: &[String]) -> Script {
                     6 => "show".to_string(),
                     7 => "load".to_string(),
                     8 => "hällo wörld".to_string(),
-                    9 => "FC = 12abc".to_string(),
-                    10 => "set J1 = true".to_string(),
+                    9 => match rng.below(5) {
+                        0 => "FC = 12abc".to_string(),
+                        1 => format!("FE = 0B{:b}", rng.u8()),
+                        2 => format!("  FF = {}  ", rng.u8()),
+                        3 => format!("set IRG = 00{}", rng.u8()),
+                        _ => "exit".to_string(),
+                    },
+                    10 => format!("{} = 0X{:X}", rng.pick(&["FC", "fd"]), rng.u8()),
                     _ => format!("{} {}", rng.pick(&["F", "se", "x", "=", "日本"]), rng.below(400)),
                 };
                 type_line(&mut keys, &line);
@@ -649,7 +680,21 @@ fn random_script(rng: &mut Rng, id: String, fix: &[String]) -> Script {
             17 => keys.push(Key::Down),
             18 => keys.push(if rng.bool() { Key::Home } else { Key::End }),
             19 => keys.push(Key::Enter),
-            20 => keys.push(Key::Ctrl(*rng.pick(&['a', 'w', 'e', 'r', 'l', 'w', 'e', 'x']))),
+            20 => {
+                if rng.chance(1, 3) {
+                    // file-name completion on unusual prefixes
+                    for c in "load ".chars() {
+                        keys.push(Key::Char(c));
+                    }
+                    for _ in 0..rng.usize(4) {
+                        keys.push(Key::Char(*rng.pick(&['ä', '日', '/', '.', 't', 'm', 'p', ' ', '~', '\u{301}'])));
+                    }
+                    keys.push(Key::Tab);
+                    keys.push(if rng.bool() { Key::Tab } else { Key::BackTab });
+                } else {
+                    keys.push(Key::Ctrl(*rng.pick(&['a', 'w', 'e', 'r', 'l', 'w', 'e', 'x'])));
+                }
+            }
             21 => keys.push(Key::Resize(1 + rng.below(250) as u16, 1 + rng.below(100) as u16)),
             22 => {
                 // a long line to exercise the scrolling input widget
